@@ -421,7 +421,7 @@ func TestVerifMembership(t *testing.T) {
 
 	// ---- code -> spec: seeded random driver, trace validated by TLC ----
 	rng := env.Rand()
-	traces := env.Pick(120, 1200)
+	traces := env.Pick(120, 600)
 	for tr := 0; tr < traces; tr++ {
 		caseNo++
 		sut.begin(caseNo)
